@@ -327,6 +327,7 @@ fn run_case(line: &str) -> String {
                 false,
             ),
             'L' => canon_tree(&run_child(line, "main", false, &with(cli_args(&sp, None, false), &["--list"])), false),
+            'K' => String::new(),
             'D' => {
                 let o = run_child(line, "dump", false, &[]);
                 let mut s = o.stdout.lines().next().unwrap_or("").to_string();
